@@ -100,7 +100,7 @@ def main(chk):
     for nm in ('MIN', 'MAX'):
         for n in ((1, 2, 3, 4) if chk.tier == 'quick' else (1, 2, 3, 4, 5, 6)):
             hs.append(k_minmax_exact(nm, n, n + 3 if chk.tier == 'quick' else 2 * n + 2))
-    chk.add(kani.run_family_set('C01', hs, jobs=12, timeout_s=300 if chk.tier == 'quick' else 3600))
+    chk.add(kani.run_family_set('C01', hs, jobs=12, timeout_s=300 if chk.tier == 'quick' else 1200))
     chk.extra['mir_dump_s'] = round(mir.dump_s, 2)
     chk.assumptions += ['f64 arithmetic modelled as exact real arithmetic in engine R (rounding, NaN, inf, -0.0 not modelled there)',
                         'inputs bounded by 1e12 in magnitude (f64::INFINITY sentinel modelled as 1e400)',
